@@ -25,7 +25,7 @@ CASE_HEADER = "From Coq Require Import ZArith List.\nFrom LK Require Import Mode
 SHARD = 40
 TRUSTED = [
     "Coq 8.16.1 kernel + vm_compute (no native_compute); Print Assumptions of every theorem in Props/C16.v: closed under the global context",
-    "hand-written model Model/C16_itemlist.v of ItemList.__init__ / ids / numbers / ranks / __getitem__ / clone / to_df+from_df / to_arrow+from_arrow, "
+    "hand-written model Model/C16_itemlist.v of ItemList.__init__ / ids / numbers / ranks / __getitem__ / clone / to_df+from_df / to_arrow(ids, numbers | columns=...)+from_arrow, "
     "tied to the code by operation-sequence correspondence evaluated inside Coq (exact integers; values are quarter steps so float32 is exact)",
     "section-free hypotheses of the theorems: every vocabulary has distinct terms (enforced by Vocabulary.__init__), an argument array of shape [n] has n entries",
     "NumPy / PyTorch / Arrow / pandas indexing and conversion kernels, MTArray caching: exercised (every format compared entry-wise), not verified",
@@ -38,7 +38,11 @@ ASSUMPTIONS = [
 ]
 RULE = ("operation sequences of length 3-12 over 1-3 vocabularies of integer or string identifiers; lists of 0-6 items built from "
         "ids / numbers / both / nothing with list, NumPy, torch, Arrow and pandas containers; separate malformed stream (wrong length, 2-D, 0-d, "
-        "wrong dtype, out-of-range selectors and numbers); non-trivial = at least 3 live lists at the end, at least one subsetting and one copy "
+        "wrong dtype, out-of-range selectors and numbers) and wrong-shape stream (a field / score / rank of the wrong length, 2-D / 3-D or 0-d in every "
+        "container spelling: nested lists / tuples, lists of arrays / tensors, C / Fortran / object ndarrays, tensors, Arrow tensors, data frames, NumPy and "
+        "Python scalars; at construction and in the copy constructor); conversions with every parameter generated (to_arrow table / struct array / chunked, "
+        "ids / numbers flags, caller-supplied column schema of any subset in any order with any types, vocabulary kept or not; columns permuted before "
+        "from_arrow / from_df) and compared column by column by name; non-trivial = at least 3 live lists at the end, at least one subsetting and one copy "
         "or conversion step succeeded, and some list resolved identifiers or numbers lazily through a vocabulary; distinct = by hash of the case")
 
 NID = 10
@@ -71,25 +75,53 @@ def g_vals(rng, n, kind, dtype):
     return out
 
 
-def g_arr(rng, n, bad=None, dtype=None):
+# how an array of a given container kind is spelled (the model only sees kind / shape / data)
+REPS_1D = {"list": ["list", "list", "tuple", "list-of-0d"]}
+REPS_2D = {"list": ["list", "tuple", "list-of-tuples", "tuple-of-lists", "list-of-arrays", "list-of-tensors"],
+           "numpy": ["ndarray", "fortran", "object"], "torch": ["tensor"], "arrow": ["tensor"], "pandas": ["frame"]}
+REPS_3D = {"list": ["list", "tuple", "list-of-arrays"], "numpy": ["ndarray", "object"], "torch": ["tensor"], "arrow": ["tensor"]}
+REPS_0D = {"list": ["pyscalar"], "numpy": ["ndarray", "npscalar"], "torch": ["tensor"]}
+
+
+def g_arr(rng, n, bad=None, dtype=None, scalar_ok=True):
+    """An argument array: container kind, spelling (`rep`), dtype, shape, row-major data.  `bad` asks for a wrong
+    length, a wrong dimensionality (2-D / 3-D in every container that can hold one, with or without the right number
+    of entries) or a 0-d value (0-d array / tensor, NumPy scalar, plain Python number)."""
     kind = rng.choice(KINDS)
     dtype = dtype or rng.weighted([("f8", 4), ("f4", 2), ("i8", 2)])
     shape = [n]
+    rep = None
     if bad == "len":
         shape = [n + 1] if (n == 0 or rng.chance(1, 2)) else [n - 1]
     elif bad == "2d":
-        shape = [max(n, 1), 2]
-        kind = rng.choice(["list", "numpy", "torch"])
+        if n == 0:
+            shape = rng.choice([[1, 2], [0, 2], [1, 1]])
+        else:
+            shape = rng.weighted([([n, 2], 4), ([n, 1], 2), ([1, n], 2), ([2, n], 1), ([n, 1, 1], 1), ([n, 2, 1], 1)])
+        reps = REPS_3D if len(shape) == 3 else REPS_2D
+        kind = rng.choice(sorted(reps))
+        if shape[0] == 0:
+            kind = rng.choice(["numpy", "torch"])          # a nested list with no rows is just an empty list
+        rep = rng.choice(reps[kind])
     elif bad == "0d":
         shape = []
-        kind = rng.choice(["numpy", "torch"])
+        kind = rng.choice(sorted(REPS_0D) if scalar_ok else ["numpy", "torch"])
+        rep = rng.choice(REPS_0D[kind]) if scalar_ok else None
     elif bad == "allnull":
         kind, dtype = "arrow", "f8"
         return {"kind": kind, "dtype": dtype, "shape": [n], "data": ["N"] * n}
+    elif kind in REPS_1D:
+        rep = rng.choice(REPS_1D[kind])
     cnt = 1
     for s in shape:
         cnt *= s
-    return {"kind": kind, "dtype": dtype, "shape": shape, "data": g_vals(rng, cnt, kind, dtype)}
+    data = g_vals(rng, cnt, kind, dtype)
+    if rep == "tensor" and kind == "arrow":
+        data = [0 if d == "N" else d for d in data]       # an Arrow tensor has no validity bitmap
+    a = {"kind": kind, "dtype": dtype, "shape": shape, "data": data}
+    if rep is not None:
+        a["rep"] = rep
+    return a
 
 
 def g_idarr(rng, ids, idtype, bad=None):
@@ -142,7 +174,7 @@ def g_fields(rng, n, names, bad=None):
     return out
 
 
-def g_new(rng, cs, malformed):
+def g_new(rng, cs, malformed, force_bad=None):
     nv = len(cs["vocabs"])
     v = rng.below(nv) if rng.chance(7, 10) else None
     terms = cs["vocabs"][v]["terms"] if v is not None else None
@@ -150,7 +182,9 @@ def g_new(rng, cs, malformed):
     form = rng.weighted([("ids", 4), ("nums", 3), ("both", 2)])
     if n == 0 and rng.chance(1, 2):
         form = "none"
-    bad = rng.choice(["len", "2d", "0d", "ids2d", "idfloat", "nums2d", "numslen", "twoscores", "badnum", "allnull"]) if malformed else None
+    bad = force_bad or (rng.choice(["len", "2d", "0d", "ids2d", "idfloat", "nums2d", "numslen", "twoscores", "badnum", "allnull"]) if malformed else None)
+    if force_bad and n == 0 and rng.chance(2, 3):
+        n = rng.randint(1, 5)
     a = {"ids": None, "nums": None, "vocab": v, "ordered": rng.choice([None, None, True, False]), "scores": None, "fields": []}
     ids = g_ids(rng, terms, n)
     if form in ("ids", "both"):
@@ -180,15 +214,28 @@ def g_new(rng, cs, malformed):
     if bad == "twoscores":
         a["scores"] = g_arr(rng, n, dtype="f8")
         a["fields"] = [[0, g_arr(rng, n, dtype="f8")]]
+    # which argument carries the wrong shape: an extra field, the score keyword, scores=, or the rank column
+    tgt = None
+    if bad in ("len", "2d", "0d"):
+        tgt = rng.weighted([("field", 5), ("score", 2), ("scores", 2), ("rank", 1 if a["ordered"] is not False else 0)])
+    if tgt == "score":
+        a["scores"] = None
+        a["fields"] = [[0, g_arr(rng, n, bad=bad, dtype="f8")]]
+    elif tgt == "scores":
+        a["scores"] = g_arr(rng, n, bad=bad, dtype=rng.choice(["f8", "f4"]), scalar_ok=False)   # (a plain number is broadcast)
+        a["fields"] = []
     names = rng.subset([2, 3, 4], 2, 5)
     if rng.chance(1, 4) and bad is None:
         names = []
         if sc != "alias" and rng.chance(2, 3):
             a["scores"] = None
-    if bad in ("len", "2d", "0d", "allnull") and not names:
+    fbad = bad if (tgt == "field" or bad == "allnull") else None
+    if fbad and not names:
         names = [rng.choice([2, 3, 4])]
-    a["fields"] += g_fields(rng, n, names, bad if bad in ("len", "2d", "0d", "allnull") else None)
-    if rng.chance(1, 8) and a["ordered"] is not False:
+    a["fields"] += g_fields(rng, n, names, fbad)
+    if tgt == "rank":
+        a["fields"].append([1, g_arr(rng, n, bad=bad, dtype="i8")])
+    elif rng.chance(1, 8) and a["ordered"] is not False:
         a["fields"].append([1, {"kind": rng.choice(KINDS), "dtype": "i8", "shape": [n], "data": [4 * (i + 1) for i in range(n)]}])
     expect_ok = bad in (None, "badnum", "allnull") or (bad in ("ids2d", "nums2d") and (n < 2 or n % 2)) \
         or (bad == "ids2d" and form not in ("ids", "both")) or (bad == "idfloat" and form not in ("ids", "both")) \
@@ -200,12 +247,12 @@ def g_new(rng, cs, malformed):
     return {"op": "new", "args": a, "bad": bad}, (tr if expect_ok else None)
 
 
-def g_copy(rng, cs, k, src, malformed):
+def g_copy(rng, cs, k, src, malformed, force_bad=None):
     nv = len(cs["vocabs"])
     n = src["n"]
     a = {"ids": None, "nums": None, "vocab": None, "ordered": None, "scores": None, "fields": []}
     tr = dict(src, fields=set(src["fields"]))
-    bad = rng.choice(["len", "2d", "0d", "idslen", "numslen"]) if malformed else None
+    bad = force_bad or (rng.choice(["len", "2d", "0d", "idslen", "numslen"]) if malformed else None)
     what = rng.subset(["ids", "nums", "vocab", "ordered", "scores", "field", "remove", "rank"], 1, 3) or ["field"]
     v = src["vocab"]
     if "vocab" in what and not src["both_novocab"]:
@@ -253,9 +300,20 @@ def g_copy(rng, cs, k, src, malformed):
         else:
             a["scores"] = {"scalar": rng.randint(-4, 20)}
             tr["fields"].add(0)
-    if "field" in what or bad in ("len", "2d", "0d"):
+    sbad = bad if bad in ("len", "2d", "0d") else None
+    tgt = None
+    if sbad:
+        tgt = rng.weighted([("field", 5), ("score", 2), ("scores", 2), ("rank", 1 if a["ordered"] is not False else 0)])
+    if tgt == "score":
+        a["scores"] = None
+        a["fields"].append([0, g_arr(rng, n2, bad=sbad, dtype="f8")])
+    elif tgt == "scores":
+        a["scores"] = g_arr(rng, n2, bad=sbad, dtype=rng.choice(["f8", "f4"]), scalar_ok=False)
+    elif tgt == "rank":
+        a["fields"].append([1, g_arr(rng, n2, bad=sbad, dtype="i8")])
+    if "field" in what or tgt == "field":
         f = rng.choice([2, 3, 4])
-        a["fields"].append([f, g_arr(rng, n2, bad=bad if bad in ("len", "2d", "0d") else None)])
+        a["fields"].append([f, g_arr(rng, n2, bad=sbad if tgt == "field" else None)])
         tr["fields"].add(f)
     if "remove" in what:
         cand = [f for f in (2, 3, 4) if all(f != g for g, _ in a["fields"])]
@@ -263,7 +321,7 @@ def g_copy(rng, cs, k, src, malformed):
             f = rng.choice(cand)
             a["fields"].append([f, False])
             tr["fields"].discard(f)
-    if "rank" in what and a["ordered"] is not False and rng.chance(1, 2):
+    if "rank" in what and a["ordered"] is not False and tgt != "rank" and rng.chance(1, 2):
         a["fields"].append([1, {"kind": rng.choice(KINDS), "dtype": "i8", "shape": [n2], "data": [4 * (i + 1) for i in range(n2)]}])
     ok = bad is None and (n2 == n or not src["fields"])
     return {"op": "copy", "k": k, "args": a, "bad": bad}, (tr if ok else None)
@@ -296,7 +354,33 @@ def g_sel(rng, n, malformed):
     return {"t": "scalar", "i": i, "np": rng.chance(1, 2)}, 1
 
 
-def gen_case(rng, malformed=False):
+COLNAMES = ["item_id", "item_num", "rank", "score", "rating", "foo", "bar", "baz"]
+CFNUM = {"rank": 1, "score": 0, "rating": 2, "foo": 3, "bar": 4, "baz": 9}
+
+
+def g_columns(rng, src):
+    """A caller-supplied schema for to_arrow(columns=...): any subset of the identifier / number / rank columns, of the
+    list's fields and of fields it does not have, in any order, each with a type."""
+    have = {FLABEL[f] for f in src["fields"]}
+    names = []
+    for nm in COLNAMES:
+        p = {"item_id": (4, 5), "item_num": (1, 2), "rank": (1, 2)}.get(nm, (3, 4) if nm in have else (1, 6))
+        if rng.chance(*p):
+            names.append(nm)
+    if not names:
+        names = ["item_id"]
+    if rng.chance(4, 5):
+        names = rng.shuffle(names)
+    out = []
+    for nm in names:
+        t = "canon"
+        if rng.chance(1, 4):
+            t = rng.choice(["i8", "str"] if nm == "item_id" else ["i4", "i8"] if nm in ("item_num", "rank") else ["f8", "f4", "i8"])
+        out.append([nm, t])
+    return out
+
+
+def gen_case(rng, malformed=False, shapes=False):
     idtype = rng.choice(["int", "str"])
     nv = rng.weighted([(1, 2), (2, 4), (3, 2)])
     vocabs = []
@@ -309,13 +393,22 @@ def gen_case(rng, malformed=False):
         # (Vocabulary cannot be built from an Arrow array of strings: to_numpy() refuses to copy)
         vocabs.append({"terms": terms, "reorder": reorder,
                        "kind": rng.choice(["list", "numpy", "index", "series"] + (["arrow"] if idtype == "int" else []))})
-    cs = {"idtype": idtype, "vocabs": vocabs, "ops": [], "style": "malformed" if malformed else "valid"}
+    cs = {"idtype": idtype, "vocabs": vocabs, "ops": [], "style": "shapes" if shapes else "malformed" if malformed else "valid"}
     live = []
     last = None
-    nops = rng.randint(3, 12)
+    nops = rng.randint(3, 7) if shapes else rng.randint(3, 12)
     for step in range(nops):
         bad_here = malformed and rng.chance(1, 4)
-        if not live or rng.chance(1, 6):
+        if shapes and live and rng.chance(3, 4):
+            # the wrong-shape stream: a field / score / rank of the wrong length or dimensionality, in every container
+            # kind and spelling, at construction and as an override in the copy constructor
+            fb = rng.weighted([("2d", 6), ("0d", 2), ("len", 2)])
+            if rng.chance(3, 5):
+                k = rng.below(len(live))
+                o, tr = g_copy(rng, cs, k, live[k], False, force_bad=fb)
+            else:
+                o, tr = g_new(rng, cs, False, force_bad=fb)
+        elif not live or rng.chance(1, 6):
             o, tr = g_new(rng, cs, malformed and bool(live) and rng.chance(1, 2))
         else:
             k = rng.below(len(live))
@@ -343,8 +436,18 @@ def gen_case(rng, malformed=False):
                 tr = dict(src, fields=set(src["fields"]))
             else:
                 wi, wn = rng.weighted([((True, True), 3), ((True, False), 3), ((False, True), 2), ((False, False), 1)])
-                o = {"op": t, "k": k, "ids": wi, "numbers": wn}
-                if (wi or wn) and not (t == "arrow" and src["n"] == 0):
+                o = {"op": t, "k": k, "ids": wi, "numbers": wn, "perm": rng.below(1000) if rng.chance(1, 2) else None}
+                if t == "arrow":
+                    o["type"] = rng.weighted([("table", 3), ("array", 2), ("chunked", 1)])
+                if t == "arrow" and rng.chance(1, 2):
+                    o["columns"], o["kv"] = g_columns(rng, src), rng.chance(5, 6)
+                    names = [nm for nm, _ in o["columns"]]
+                    if "item_id" in names or "item_num" in names:
+                        kept = {f for f in src["fields"] if FLABEL[f] in names} | ({0} if src["n"] == 0 and "score" in names else set())
+                        tr = dict(src, fields=kept, vocab=src["vocab"] if o["kv"] else None)
+                        tr["noid"] = tr["vocab"] is None and "item_id" not in names
+                        tr["both_novocab"] = tr["vocab"] is None and "item_id" in names and "item_num" in names
+                elif (wi or wn) and not (t == "arrow" and src["n"] == 0):
                     tr = dict(src, fields=set(src["fields"]))
         cs["ops"].append(o)
         last = o.get("k") if o["op"] in ("ids", "nums", "ranks", "alt") else None
@@ -356,7 +459,7 @@ def gen_case(rng, malformed=False):
 
 def gen_cases(rng, tier):
     n = 1000 if tier == "quick" else 10000
-    return [gen_case(rng.fork(k), malformed=(k % 5 == 4)) for k in range(n)]
+    return [gen_case(rng.fork(k), malformed=(k % 5 == 4), shapes=(k % 5 == 2)) for k in range(n)]
 
 
 # ---------------------------------------------------------------------------------------------
@@ -404,16 +507,55 @@ def _container(vals, kind, shape, npdtype, patype=None):
     raise ValueError(kind)
 
 
+def _deep_tuple(x):
+    return tuple(_deep_tuple(y) for y in x) if isinstance(x, list) else x
+
+
+def _spell(arr, rep):
+    """One NumPy array in the spelling `rep` (see REPS_*)."""
+    if rep in ("list", "pyscalar"):
+        return arr.tolist()
+    if rep == "tuple":
+        return _deep_tuple(arr.tolist())
+    if rep == "list-of-tuples":
+        return [_deep_tuple(r) for r in arr.tolist()]
+    if rep == "tuple-of-lists":
+        return tuple(arr.tolist())
+    if rep in ("list-of-arrays", "list-of-0d"):
+        return [np.array(r) for r in arr]
+    if rep == "list-of-tensors":
+        return [torch.from_numpy(np.array(r)) for r in arr]
+    if rep == "ndarray":
+        return arr
+    if rep == "fortran":
+        return np.asfortranarray(arr)
+    if rep == "object":
+        return arr.astype(object)
+    if rep == "npscalar":
+        return arr[()]
+    if rep == "tensor":
+        return torch.from_numpy(arr.copy())
+    if rep == "frame":
+        return pd.DataFrame(arr)
+    raise ValueError(rep)
+
+
 def _mk_arr(a):
     dt = {"f8": np.float64, "f4": np.float32, "i8": np.int64}[a["dtype"]]
-    if a["kind"] == "arrow":
+    rep = a.get("rep")
+    if a["kind"] == "arrow" and rep != "tensor":
         pt = {"f8": pa.float64(), "f4": pa.float32(), "i8": pa.int64()}[a["dtype"]]
         vals = [None if d == "N" else (float("nan") if d is None else (d // 4 if a["dtype"] == "i8" else d / 4)) for d in a["data"]]
         return pa.array(vals, type=pt)
     vals = [float("nan") if d is None else d / 4 for d in a["data"]]
     if a["dtype"] == "i8":
         vals = [d // 4 for d in a["data"]]
-    return _container(vals, a["kind"], a["shape"], dt)
+    if rep is None:
+        return _container(vals, a["kind"], a["shape"], dt)
+    arr = np.array(vals, dtype=dt).reshape(a["shape"])
+    if a["kind"] == "arrow":
+        return pa.Tensor.from_numpy(arr)
+    return _spell(arr, rep)
 
 
 def _mk_ids(a, idtype):
@@ -489,15 +631,13 @@ def _err(e):
     for t, n in ERRS.items():
         if type(e) is t:
             return n
-    raise e
+    return "X:" + type(e).__name__          # not an outcome the model knows: always reported (oracle `unexpected-exception`)
 
 
 def _try(f):
     try:
         return f(), None
-    except (RuntimeError, KeyError, IndexError, TypeError, ValueError) as e:
-        if type(e) not in ERRS:
-            raise
+    except Exception as e:
         return None, _err(e)
 
 
@@ -544,15 +684,116 @@ def _observe(il, vocabs, direct=False):
     }
     if voc is not None and o["vocab"] is None:
         o["vocab"] = -1
+    shapes = {}
     r = s().ranks()
-    o["ranks"] = None if r is None else [int(x) for x in r.tolist()]
+    o["ranks"] = None if r is None else _flat("rank", r, int, shapes)
     o["fields"] = []
     x = s()
     for f in FNAMES:
         v = x.field(FLABEL[f])
-        o["fields"].append(None if v is None else [_cv(t) for t in np.asarray(v).tolist()])
+        o["fields"].append(None if v is None else _flat(FLABEL[f], v, _cv, shapes))
     o["extra_fields"] = sorted(k for k in x._fields if k not in FLABEL.values())
+    o["shapes"] = shapes          # fields that are not 1-D arrays of numbers (never on the unchanged tree)
     return o
+
+
+def _flat(name, v, conv, shapes):
+    """The entries of one column in row-major order; anything but a 1-D array of numbers is noted in `shapes`."""
+    a = np.asarray(v)
+    if a.ndim != 1:
+        shapes[name] = list(a.shape)
+    out = []
+    for t in a.ravel().tolist():
+        try:
+            out.append(conv(t))
+        except (TypeError, ValueError, AssertionError):
+            shapes.setdefault(name, list(a.shape) + ["entries:" + type(t).__name__])
+            out.append(None)
+    return out
+
+
+def _canon_col(name, vals, shapes):
+    """A column of a data frame / Arrow table read by NAME, in the observation's vocabulary (null and NaN -> None)."""
+    def one(t):
+        if t is None:
+            return None
+        if name == "item_id":
+            return _unid(t)
+        if name in ("item_num", "rank"):
+            if t != t:
+                return None
+            assert int(t) == t
+            return int(t)
+        return _cv(t)
+    out = []
+    for t in vals:
+        try:
+            out.append(one(t))
+        except (TypeError, ValueError, AssertionError):
+            shapes.setdefault(name, ["entries:" + type(t).__name__])
+            out.append(None)
+    return out
+
+
+def _table_obs(tbl):
+    shapes = {}
+    if isinstance(tbl, pd.DataFrame):
+        names = [str(c) for c in tbl.columns]
+        cols = {nm: _canon_col(nm, tbl[nm].tolist(), shapes) for nm in names}
+    elif isinstance(tbl, pa.Table):
+        names = list(tbl.column_names)
+        cols = {nm: _canon_col(nm, tbl.column(nm).to_pylist(), shapes) for nm in names}
+    else:
+        names = [tbl.type.field(i).name for i in range(tbl.type.num_fields)]
+        cols = {nm: _canon_col(nm, tbl.field(nm).to_pylist(), shapes) for nm in names}
+    return {"names": names, "cols": cols, "rows": len(tbl), "shapes": shapes}
+
+
+def _permuted(names, key):
+    import random
+    out = list(names)
+    random.Random(key).shuffle(out)
+    return out
+
+
+PATYPES = {"f8": "float64", "f4": "float32", "i4": "int32", "i8": "int64", "str": "utf8"}
+
+
+def _schema(cols, idtype):
+    """The caller's schema for to_arrow(columns=...): names in the caller's order, each with a type (only used for
+    columns the list cannot fill)."""
+    canon = {"item_id": pa.int64() if idtype == "int" else pa.utf8(), "item_num": pa.int32(), "rank": pa.int32(), "score": pa.float32()}
+    return {nm: (canon.get(nm, pa.float64()) if t == "canon" else getattr(pa, PATYPES[t])()) for nm, t in cols}
+
+
+def _via_arrow(src, o, idtype, rec):
+    kw = {"ids": o["ids"], "numbers": o["numbers"]}
+    how = o.get("type", "table")
+    if how != "table":
+        kw["type"] = "array"
+    if o.get("columns") is not None:
+        kw["columns"] = _schema(o["columns"], idtype)
+    tbl = src.to_arrow(**kw)
+    rec["table"] = _table_obs(tbl)
+    if o.get("perm") is not None:                       # from_arrow reads by name: the column order is immaterial
+        if isinstance(tbl, pa.Table):
+            tbl = tbl.select(_permuted(tbl.column_names, o["perm"]))
+        else:
+            order = _permuted([tbl.type.field(i).name for i in range(tbl.type.num_fields)], o["perm"])
+            tbl = pa.StructArray.from_arrays([tbl.field(nm) for nm in order], order)
+    if how == "chunked":
+        h = len(tbl) // 2
+        tbl = pa.chunked_array([tbl[:h], tbl[h:]] if h else [tbl])
+    voc = src.vocabulary if o.get("kv", True) else None
+    return ItemList.from_arrow(tbl, vocabulary=voc)
+
+
+def _via_df(src, o, rec):
+    df = src.to_df(ids=o["ids"], numbers=o["numbers"])
+    rec["table"] = _table_obs(df)
+    if o.get("perm") is not None:
+        df = df[_permuted(list(df.columns), o["perm"])]
+    return ItemList.from_df(df, vocabulary=src.vocabulary)
 
 
 def _formats(il, o, vocabs):
@@ -581,7 +822,7 @@ def _formats(il, o, vocabs):
         if isinstance(o["err"], list):
             sr = il.field(nm, "pandas", index="numbers")
             same(nm + "/pandas-numbers", [[int(i), _cv(t)] for i, t in zip(sr.index.tolist(), sr.tolist())], [list(p) for p in zip(o["err"], want)])
-    if f == 0 and o["fields"][0] is not None:
+    if o["fields"][0] is not None:
         same("scores()", [_cv(t) for t in il.scores().tolist()], o["fields"][0])
     # rows of the data frame / Arrow table
     cols_ok = isinstance(o["ids"], list) or isinstance(o["err"], list)
@@ -666,9 +907,9 @@ def run_impl(case):
         elif op == "clone":
             made, rec["out"] = _try(lambda: src.clone())
         elif op == "df":
-            made, rec["out"] = _try(lambda: ItemList.from_df(src.to_df(ids=o["ids"], numbers=o["numbers"]), vocabulary=src.vocabulary))
+            made, rec["out"] = _try(lambda: _via_df(src, o, rec))
         elif op == "arrow":
-            made, rec["out"] = _try(lambda: ItemList.from_arrow(src.to_arrow(ids=o["ids"], numbers=o["numbers"]), vocabulary=src.vocabulary))
+            made, rec["out"] = _try(lambda: _via_arrow(src, o, idtype, rec))
         else:
             raise ValueError(op)
         # every list that existed before the step: unchanged?
@@ -782,6 +1023,9 @@ def c_op(o):
         return f"OClone {k}"
     if op == "df":
         return f"ODf {k} {cbool(o['ids'])} {cbool(o['numbers'])}"
+    if op == "arrow" and o.get("columns") is not None:
+        cols = clist([nm for nm, _ in o["columns"]], lambda nm: {"item_id": "CId", "item_num": "CNum"}.get(nm) or f"(CName {cnat(CFNUM[nm])})")
+        return f"OArrowC {k} {cols} {cbool(o.get('kv', True))}"
     if op == "arrow":
         return f"OArrow {k} {cbool(o['ids'])} {cbool(o['numbers'])}"
     raise ValueError(op)
@@ -802,11 +1046,26 @@ def c_lobs(o):
 
 
 def _obs_ok(o):
-    return o is None or ((o["vocab"] is None or o["vocab"] >= 0) and not o["extra_fields"])
+    return o is None or ((o["vocab"] is None or o["vocab"] >= 0) and not o["extra_fields"] and not o.get("shapes"))
+
+
+def _unexpected(obs):
+    """Exceptions outside the model's vocabulary, wherever the driver met them."""
+    out = []
+    for si, s in enumerate(obs["steps"]):
+        if isinstance(s["out"], str) and s["out"].startswith("X:"):
+            out.append((f"step {si}", s["out"][2:]))
+    for tag, o in [(f"step {si}", s["obs"]) for si, s in enumerate(obs["steps"])] + [(f"final list {j}", o) for j, o in enumerate(obs["final"])]:
+        if o is None:
+            continue
+        for r in [o["ids"], o["neg"], o["err"]] + [x for p in o["alt"] for x in p]:
+            if isinstance(r, dict) and r["err"].startswith("X:"):
+                out.append((tag + " (reading the list)", r["err"][2:]))
+    return out
 
 
 def coq_term(case, obs):
-    if obs["fmt_bad"] or any(s["changed"] for s in obs["steps"]):
+    if obs["fmt_bad"] or any(s["changed"] for s in obs["steps"]) or _unexpected(obs):
         return "false"
     if not all(_obs_ok(s["obs"]) for s in obs["steps"]) or not all(_obs_ok(o) for o in obs["final"]):
         return "false"
@@ -854,9 +1113,86 @@ def _check_list(case, o, v, tag):
     for f, vals in zip(FNAMES, o["fields"]):
         if vals is not None and len(vals) != n:
             v.append((f"field-length:{tag}", f"field {FLABEL[f]} has {len(vals)} values for {n} items"))
+    for nm, shp in sorted((o.get("shapes") or {}).items()):
+        v.append((f"field-shape:{tag}", f"{nm} of a list of {n} items is not a 1-D array of numbers (one value per item): shape / entries {shp}"))
     want = list(range(1, n + 1)) if o["ordered"] else None
     if o["ranks"] != want:
         v.append((f"ranks:{tag}", f"ordered={o['ordered']} list of {n} items has ranks {o['ranks']}"))
+
+
+def _by_name(o, s, si, v):
+    """Conversion keeps every value under its own NAME: each column of the data frame / Arrow table a list was
+    converted to holds that list's identifiers / numbers / ranks / values of the field of that name (nulls for what the
+    list does not have), in the caller's column order when a schema was given -- whatever that order is."""
+    tb, src, op = s.get("table"), s["src"], o["op"]
+    if tb is None or src is None:
+        return
+    n = src["len"]
+    req = [nm for nm, _ in o["columns"]] if o.get("columns") is not None else None
+    if req is not None and tb["names"] != req:
+        v.append((f"columns-by-name:{op}-schema", f"step {si}: columns {req} requested, the table has {tb['names']}"))
+    for nm, shp in sorted(tb["shapes"].items()):
+        v.append((f"columns-by-name:{op}-entries", f"step {si}: column {nm} holds entries of the wrong kind: {shp}"))
+    if tb["rows"] != n and (tb["names"] or n == 0):
+        v.append((f"columns-by-name:{op}-rows", f"step {si}: {tb['rows']} rows for a list of {n} items"))
+    for nm in tb["names"]:
+        got = tb["cols"][nm]
+        if nm == "item_id":
+            want, cls = (src["ids"] if _ok(src["ids"]) else None), nm
+        elif nm == "item_num":
+            want, cls = (src["err"] if _ok(src["err"]) else None), nm
+        elif nm == "rank":
+            want, cls = (list(range(1, n + 1)) if src["ordered"] else [None] * n), nm
+        else:
+            j = [FLABEL[f] for f in FNAMES].index(nm) if nm in [FLABEL[f] for f in FNAMES] else None
+            want, cls = (src["fields"][j] if j is not None and src["fields"][j] is not None else [None] * n), "field"
+        if want is not None and got != want:
+            v.append((f"columns-by-name:{op}-{cls}", f"step {si}: column {nm!r} of {op} (columns {tb['names']}) holds {got}, the list has {want}"))
+    if req is None:
+        for j, f in enumerate(FNAMES):
+            if src["fields"][j] is not None and FLABEL[f] not in tb["names"] and n:
+                v.append((f"columns-by-name:{op}-dropped", f"step {si}: field {FLABEL[f]} has no column in {tb['names']}"))
+        if n and ("rank" in tb["names"]) != src["ordered"]:
+            v.append((f"columns-by-name:{op}-dropped", f"step {si}: ordered={src['ordered']} but columns are {tb['names']}"))
+
+
+def _columns_round_trip(o, s, si, v):
+    """from_arrow(to_arrow(columns=...)): what was requested comes back, item by item, under the same name."""
+    src, new, req = s["src"], (s["obs"] if s["out"] is None else None), [nm for nm, _ in o["columns"]]
+    n = src["len"]
+    ident = "item_id" in req or "item_num" in req
+    if not ident:
+        want_out = ["EType"]                      # a table without identifiers or numbers is not an item list
+    elif n == 0:
+        want_out = [None]                         # an empty list calls no reader
+    else:
+        want_out = [None]
+        if "item_id" in req and not _ok(src["ids"]):
+            want_out.append(src["ids"]["err"])
+        if "item_num" in req and not _ok(src["err"]):
+            want_out.append(src["err"]["err"])
+        if len(want_out) > 1:
+            want_out = want_out[1:]
+    if s["out"] not in want_out:
+        v.append(("spurious-error:arrow-columns", f"step {si}: to_arrow(columns={req}) / from_arrow gave {s['out']}, expected {want_out}"))
+    if new is None:
+        return
+    if new["len"] != n:
+        v.append(("rows-together:arrow-columns-len", f"step {si}: {n} items became {new['len']}"))
+    if n == 0:
+        return
+    if "item_id" in req and _ok(src["ids"]) and new["ids"] != src["ids"]:
+        v.append(("rows-together:arrow-columns-ids", f"step {si}: identifiers {src['ids']} came back as {new['ids']}"))
+    if "item_num" in req and _ok(src["err"]) and new["neg"] != src["err"]:
+        v.append(("rows-together:arrow-columns-numbers", f"step {si}: numbers {src['err']} came back as {new['neg']}"))
+    for j, f in enumerate(FNAMES):
+        want = src["fields"][j] if FLABEL[f] in req else None
+        if new["fields"][j] != want:
+            v.append(("rows-together:arrow-columns-field", f"step {si}: field {FLABEL[f]} (columns {req}) came back as {new['fields'][j]}, the list has {want}"))
+    if new["ordered"] != (src["ordered"] and "rank" in req):
+        v.append(("rows-together:arrow-columns-rank", f"step {si}: ordered={src['ordered']}, columns {req}: the result has ordered={new['ordered']}"))
+    if new["vocab"] != (src["vocab"] if o.get("kv", True) else None):
+        v.append(("rows-together:arrow-columns-vocab", f"step {si}: vocabulary {src['vocab']} became {new['vocab']}"))
 
 
 def _sigma(n, s):
@@ -926,6 +1262,8 @@ def oracle(case, obs):
         return v
     for m in obs["fmt_bad"]:
         v.append(("format-conversion", m))
+    for where, name in _unexpected(obs):
+        v.append(("unexpected-exception", f"{where}: {name}"))
     for si, (o, s) in enumerate(zip(case["ops"], obs["steps"])):
         op = o["op"]
         if s["changed"]:
@@ -1016,6 +1354,10 @@ def oracle(case, obs):
         elif op in ("clone", "df", "arrow"):
             if op == "clone" and s["out"] is not None:
                 v.append(("spurious-error:clone", f"step {si}: clone raised {s['out']}"))
+            _by_name(o, s, si, v)
+            if o.get("columns") is not None:
+                _columns_round_trip(o, s, si, v)
+                continue
             if new is None:
                 continue
             same = 0
@@ -1062,11 +1404,24 @@ def counters(case, obs):
         if o["op"] in ("new", "copy"):
             a = o["args"]
             yield f"{o['op']}-form=" + ("both" if a["ids"] and a["nums"] else "ids" if a["ids"] else "nums" if a["nums"] else "none")
-            for x in [a["ids"], a["nums"]] + [x for _, x in a["fields"] if x]:
-                if x:
+            for x in [a["ids"], a["nums"], a["scores"]] + [x for _, x in a["fields"] if x]:
+                if x and "kind" in x:
                     yield "container=" + x["kind"]
+                    if x.get("rep") is not None:
+                        yield f"spelling={x['kind']}/{x['rep']}:{len(x['shape'])}-d"
             if o["op"] == "copy" and a["vocab"] is not None and s["src"] and s["src"]["vocab"] not in (None, a["vocab"]):
                 yield "copy-replaces-vocabulary"
+        if o["op"] in ("df", "arrow"):
+            yield f"{o['op']}-columns-permuted-before-reading=" + str(o.get("perm") is not None)
+        if o["op"] == "arrow":
+            yield "arrow-type=" + o.get("type", "table")
+            if o.get("columns") is not None:
+                names = [nm for nm, _ in o["columns"]]
+                canon = [nm for nm in ["item_id", "item_num", "rank"] if nm in names]
+                yield "arrow-schema=" + ("special-columns-first" if names[:len(canon)] == canon else "other-order")
+                yield "arrow-schema-identity=" + ("+".join(nm for nm in ("item_id", "item_num") if nm in names) or "none")
+                if any(t != "canon" for _, t in o["columns"]):
+                    yield "arrow-schema-with-other-types"
         if s["obs"] and s["out"] is None and s["obs"]["len"] == 0:
             yield "touched-empty-list"
     for o in obs["final"]:
@@ -1080,7 +1435,14 @@ def sample(case, obs):
             "observation": {"outcomes": [s["out"] for s in obs["steps"]], "final": obs["final"][:2]}}
 
 
+_shrunk = 0
+
+
 def shrink(case, fails):
+    global _shrunk
+    _shrunk += 1
+    if _shrunk > 5:          # cap the cost of a run in which many cases fail
+        return case
     c = dict(case)
     first = case["ops"][:1]
     rest = common.shrink_list(case["ops"][1:], lambda xs: fails({**c, "ops": first + xs}), 60)
